@@ -156,17 +156,23 @@ func (k *Keeper) WriteAcknowledgementForForwardedPacket(ctx sdk.Context, packet 
 	} else {
 		// Funds in the escrow account were burned,
 		// so on a timeout or acknowledgement error we need to mint the funds back to the escrow account.
-		if err := k.bankKeeper.MintCoins(ctx, transfertypes.ModuleName, newToken); err != nil {
-			return fmt.Errorf("cannot mint coins to the %s module account: %w", transfertypes.ModuleName, err)
-		}
+		// The forward burned the voucher. If the voucher also carries the refund channel as its first hop,
+		// the packet was forwarded back over the channel it arrived on: the receive minted the voucher and
+		// the forward burned it again, so there is nothing to restore (minting here would leave unbacked
+		// vouchers in the channel's escrow account).
+		if !denom.HasPrefix(inFlightPacket.RefundPortId, inFlightPacket.RefundChannelId) {
+			if err := k.bankKeeper.MintCoins(ctx, transfertypes.ModuleName, newToken); err != nil {
+				return fmt.Errorf("cannot mint coins to the %s module account: %w", transfertypes.ModuleName, err)
+			}
 
-		if err := k.bankKeeper.SendCoinsFromModuleToAccount(ctx, transfertypes.ModuleName, refundEscrowAddress, newToken); err != nil {
-			return fmt.Errorf("cannot send coins from the %s module to the escrow account %s: %w", transfertypes.ModuleName, refundEscrowAddress, err)
-		}
+			if err := k.bankKeeper.SendCoinsFromModuleToAccount(ctx, transfertypes.ModuleName, refundEscrowAddress, newToken); err != nil {
+				return fmt.Errorf("cannot send coins from the %s module to the escrow account %s: %w", transfertypes.ModuleName, refundEscrowAddress, err)
+			}
 
-		currentTotalEscrow := k.transferKeeper.GetTotalEscrowForDenom(ctx, coin.GetDenom())
-		newTotalEscrow := currentTotalEscrow.Add(coin)
-		k.transferKeeper.SetTotalEscrowForDenom(ctx, newTotalEscrow)
+			currentTotalEscrow := k.transferKeeper.GetTotalEscrowForDenom(ctx, coin.GetDenom())
+			newTotalEscrow := currentTotalEscrow.Add(coin)
+			k.transferKeeper.SetTotalEscrowForDenom(ctx, newTotalEscrow)
+		}
 	}
 
 	return k.ics4Wrapper.WriteAcknowledgement(ctx, inFlightPacket.ChannelPacket(), ack)
